@@ -265,6 +265,11 @@ def run(ctx):
     # the same workload without red zones: an over-long descriptor walk is not cut short by the sanitizer,
     # so the number of frames it would really emit becomes observable
     run_monitored(ctx, plain, scns, monitor, tag="emit-plain")
+    from . import c06_linux
+    c06_linux.run(ctx)
+    rep.rule += ("; plus the Linux port under a virtual CLOCK_MONOTONIC with the C library's sleep semantics: three-descriptor Emits "
+                 "at every phase of the second, each transmit no earlier than the pauses before it add up to")
+    rep.assumptions.append("Linux part: descriptor kinds fixed (Train, Probe, Train); the virtual clock charges 1 us per clock read")
     c = rep.counters
     rep.need("emits_judged", c.get("emits_judged", 0), 1000)
     rep.need("inflated_emits", c.get("inflated_emits", 0), 100)
